@@ -8,6 +8,7 @@ from ..sym import bv64, Node
 from ..models import vec_slice
 from .. import build
 from .common import initial, mval, T
+from ..replay import Scenario
 from . import batteries as B
 from . import dri
 
@@ -223,3 +224,65 @@ def reads_recorded(O):
 def variables_first(O):
     from . import C04
     C04.ctx_get(O, rep())
+
+
+@obligation("C15/conditionally-bound-names", profiles=("dev",),
+            desc="the static gate and the run time must agree on what a name is. Decided facts: (1) parser, `while` arm - are names "
+                 "bound while parsing the body still in scope after `end while` (no scope operation around the body)? (2) "
+                 "EvalContext::get - does a name with no variable binding fall back to the device output of that name? If both, "
+                 "a name whose only binding sits in a while body that runs zero times is a variable for the parser (its read is "
+                 "not recorded, the static gate opens) and an output read at run time: the composed counterexample is run natively")
+def conditionally_bound(O):
+    from . import C09, C11
+    R = rep()
+    m, eng, ts, paths = C09.explore_block(O, 0, None, None, 1, keep=C11.SCOPE_KEEP, fixed=("While", "LParen", "RParen", "Eol"),
+                                          keep_outcomes=lambda oc: oc in ("return", "cut", "panic"))
+    leaks = 0
+    nacc = 0
+    for p in paths:
+        eng.focus(p)
+        if p.outcome != "return":
+            continue
+        rt = eng.tag_of(p.ret, None)
+        r, _ = O.solve(list(p.pc) + [rt == bv64(0)], want_model=False)
+        if r != "sat":
+            continue
+        nacc += 1
+        ev = C11.scope_events(p)
+        if "block" in ev:
+            i = ev.index("block")
+            around = ev[max(0, i - 1):i] + ev[i + 1:i + 2]
+            if "push_frame" not in around and "pop_frame" not in around and not any(x in ev for x in ("snapshot", "restore")):
+                leaks += 1
+    if nacc == 0:
+        O.inconclusive("vacuous: no accepted while statement")
+        return
+    # (2) fall-back of an unbound name to the outputs
+    fn = O.find("::get", file="eval_context.rs")
+    eng2 = O.engine()
+    eng2.keep_events(r"FramedMap::get$", r"HashMap::get$")
+    paths2 = O.explore(eng2, fn)
+    fallback = 0
+    for p in paths2:
+        eng2.focus(p)
+        if p.outcome != "return":
+            continue
+        calls = p.calls(r"(FramedMap|HashMap)::get$")
+        if len(calls) == 2 and calls[0].norm.startswith("FramedMap::get") and calls[1].norm.startswith("HashMap::get"):
+            vt = eng2.tag_of(calls[0].ret, None)
+            ot = eng2.tag_of(calls[1].ret, None)
+            r, _ = O.solve(list(p.pc) + [vt == bv64(0), ot == bv64(1), eng2.tag_of(p.ret, None) == bv64(1)], want_model=False)
+            if r == "sat":
+                fallback += 1
+    O.rec["witnesses"].append({"class": "while bodies bind into the enclosing scope / unbound names fall back to outputs",
+                               "paths": leaks + fallback, "model": {"leaking_paths": str(leaks), "fallback_paths": str(fallback)}})
+    if leaks and fallback:
+        S = [("in", "A", 8, 0), ("out", "Y", 8), ("out", "Q", 8)]
+        scen = [Scenario("A Y\nwhile(0)\nlet Q = 1;\nend while\n(Q) X\n", S, mode="both", default_answer=[3, 7], expect={"static": "ok"},
+                         stop_on_err=False, note="a name first bound in a while body that runs zero times, read afterwards"),
+                Scenario("A Y\nlet k = 0;\nwhile(k)\nlet Q = 1;\nend while\n(Q+1) X\n2 X\n", S, mode="both", default_answer=[3, 7],
+                         expect={"static": "ok"}, stop_on_err=False, note="the same with a variable condition")]
+        O.violation("a name first bound in a while body that may run zero times is a variable for the static gate and a device "
+                    "output at run time", None, dict(R.facts, what="name first bound in a while body that may run zero times"),
+                    scen, R.judge, "parser: %d accepting while paths keep the body's bindings; get: %d fall-back paths" % (leaks, fallback))
+    O.note("while arm: %d of %d accepting paths keep the body's bindings in scope; get: %d paths fall back to an output" % (leaks, nacc, fallback))
